@@ -18,24 +18,54 @@ classes, so exactly one thread runs at a time and the controller decides who exe
     clear flag parks until the flag is set or, when a finite timeout was given, until the controller schedules
     it again, which means "the timeout elapsed" (a timed wait may give up at ANY scheduling point at which the
     flag is clear: a superset of "expiry at quiescence", and exactly the model's `obsTimeout`).
+  * The two calls OUT of the traced code that matter -- the registered callable and `logger.exception` -- are
+    not recognised by the layout of their source line: a `sys.monitoring` CALL hook (local to the code objects
+    of the two classes) fires at the very moment the interpreter is about to call an object, with that object.
+    When it is one of the run's registered callables the thread pauses with label `invoke` (after the argument
+    reads, before the callee is entered -- also for wrong-arity callables, partials and callable instances, for
+    which the call raises before any Python frame exists); when it is the `exception` method of the run's
+    logger the thread pauses with label `logErr`.  The order readData, readExc, invoke is therefore the order
+    in which things really happen, however the call is formatted.
   * After every step the controller records the projection of the real object (private fields, lock owner,
     event flag, invocation log, logger records) for the lockstep comparison with the Lean model.
+  * Objects.  Task results, exceptions, `extra` values and callables are drawn from families that include
+    falsy-but-not-None values (0, "", [], False, (), exceptions with empty args / `__bool__` / `__len__`,
+    callable instances with `__bool__` False or `__len__` 0, callables without `__name__`).  Every object is
+    given a model identity BY IDENTITY (`tok`): `None` is "N", interpreter singletons have fixed numbers, the
+    per-run objects have RET_OBJ / EXC_OBJ / EXTRA_BASE + registration.  The harness never asks for the truth
+    value of any of them.
 
 Exploration: `explore` enumerates all schedules (optionally with a bound on preemptions) by stateless DFS over
 schedule prefixes; `run_program` executes one schedule; `shrink` shortens a failing schedule.
 """
 import ast
+import functools
 import os
 import sys
 import threading as real_threading
+import types
 import _thread
 
 import impl  # noqa: F401  (sets sys.path to VERIF_REPO, silences logging)
 import jsonrpclib.threadpool as tp
 
-RET_OBJ = 7       # model identity of the object returned by the task
+RET_OBJ = 7       # model identity of the (per-run) object returned by the task
 EXC_OBJ = 9       # model identity of the exception raised by the task
-EXTRA_BASE = 100  # extra of registration r is EXTRA_BASE + r (or None)
+EXTRA_BASE = 100  # a per-registration extra of registration r is EXTRA_BASE + r
+# interpreter-wide singletons that are falsy but not None: one identity each, whoever uses them
+SINGLETONS = ((0, 50), ("", 51), ((), 52), (False, 53))
+
+# outcome of the task -> how the returned / raised object is made
+OUTCOMES_RET = {"ret": "obj", "retnone": "none", "ret0": "zero", "retempty": "str", "retlist": "list", "retfalse": "false"}
+OUTCOMES_RAISE = {"raise": "plain", "raisenoargs": "noargs", "raisefalsy": "bool", "raiselen": "len", "raiseos": "os"}
+# `extra` of a registration: per-registration truthy tuple, None, 0, "", (), False
+EXTRA_SPECS = ("t", "N", "0", "s", "u", "F")
+# shape of the registered callable: plain function, functools.partial, callable instance (no __name__),
+# instance with __bool__ False / __len__ 0 (lower case: no __name__; upper case: with a __name__ attribute)
+FORMS = ("f", "p", "i", "b", "l", "B", "L")
+FALSY_FORMS = ("b", "l", "B", "L")
+NAMELESS_FORMS = ("p", "i", "b", "l")
+TIMED_CALLS = {"t": 0.01, "z": 0, "Z": 0.0}   # result(timeout) calls with a finite timeout
 
 PRIVATE = ("__callback", "__extra", "__completed", "__lock", "__data", "__exception", "__event")
 
@@ -45,12 +75,11 @@ PRIVATE = ("__callback", "__extra", "__completed", "__lock", "__data", "__except
 
 
 class Label(object):
-    __slots__ = ("kind", "text", "arg_lines")
+    __slots__ = ("kind", "text")
 
-    def __init__(self, kind, text="", arg_lines=()):
+    def __init__(self, kind, text=""):
         self.kind = kind
         self.text = text
-        self.arg_lines = frozenset(arg_lines)
 
     def __repr__(self):
         return "Label(%s)" % self.kind
@@ -123,18 +152,8 @@ def _classify(cls, fn, stmt, params):
         if cls == "EventData" and name in ("set", "raise_exception") and isinstance(call.func, ast.Attribute) \
                 and call.func.attr == "set" and _self_attr(call.func.value) == "__event":
             return Label("sEvt")
-        if cls == "FutureResult" and name.endswith("__notify") and isinstance(call.func, ast.Name) \
-                and params and call.func.id == params[0]:
-            lines = set()
-            for a in list(call.args) + [k.value for k in call.keywords]:
-                for n in ast.walk(a):
-                    if hasattr(n, "lineno"):
-                        lines.add(n.lineno)
-            lines.discard(call.lineno)
-            return Label("invoke", arg_lines=lines)
-        if cls == "FutureResult" and isinstance(call.func, ast.Attribute) and call.func.attr == "exception" \
-                and isinstance(call.func.value, ast.Attribute) and call.func.value.attr == "_logger":
-            return Label("logErr")
+        # the call of the registered callable and `self._logger.exception(...)` are NOT labelled by line: they
+        # are scheduling points through the CALL hook (see `_on_call`), whatever the layout of their source
     if isinstance(stmt, ast.Return) and stmt.value is not None and cls == "EventData":
         va = _self_attr(stmt.value)
         if name == "data" and va == "__data":
@@ -277,6 +296,11 @@ class ShimEvent(object):
             return self._flag
         if not self._flag:
             if timeout is None:
+                if me.wait_timeout is not None and self._ctrl.run is not None:
+                    # the client passed a finite timeout to result(), yet an UNTIMED wait reached the event
+                    # while it is clear: this call cannot time out any more
+                    me.events.append("blocked-untimed")
+                    self._ctrl.run.blocked.append((me.cur_call, me.wait_timeout, self._ctrl.run.now(), me.name))
                 while not self._flag:
                     me.park(("event", self, None))
             elif not me.timeout_granted:
@@ -326,7 +350,7 @@ class Managed(object):
         self.events = []
         self.timeout_granted = False
         self.finished = False
-        self.frames_prev = {}
+        self.invoking = None      # registration whose callable this thread called last (CALL hook)
         self.thread = real_threading.Thread(target=self._main, name="futsched-" + name)
         self.thread.daemon = True
         self.error = None
@@ -352,23 +376,15 @@ class Managed(object):
 
     def _global_trace(self, frame, event, arg):
         if frame.f_code in self.ctrl.codes:
-            self.frames_prev[id(frame)] = None
             return self._local_trace
         return None
 
     def _local_trace(self, frame, event, arg):
         if event == "line":
             code = frame.f_code
-            key = (code.co_name, frame.f_lineno)
-            prev = self.frames_prev.get(id(frame))
-            self.frames_prev[id(frame)] = frame.f_lineno
-            lab = self.ctrl.table.get(key)
+            lab = self.ctrl.table.get((code.co_name, frame.f_lineno))
             if lab is not None:
-                if lab.kind == "invoke" and lab.arg_lines and prev not in lab.arg_lines:
-                    return self._local_trace   # first visit of a multi-line call: only loads the callee
                 self.pause(("line", code.co_name, frame.f_lineno, lab))
-        elif event == "return":
-            self.frames_prev.pop(id(frame), None)
         return self._local_trace
 
     def pause(self, state):
@@ -381,6 +397,69 @@ class Managed(object):
     def park(self, what):
         """Blocked inside a shim primitive: give the baton back; resumed when the controller thinks fit."""
         self.pause(("parked",) + what)
+
+
+
+# --------------------------------------------------------------------------------------------
+# CALL hook: the moment a traced method is about to call the registered callable / logger.exception
+
+INVOKE = Label("invoke")
+LOGERR = Label("logErr")
+_ACTIVE = [None]      # the controller of the run in progress (runs are sequential in this process)
+_TOOL = [None]
+_HOOKED = set()
+
+
+def _on_call(code, offset, callee, arg0):
+    ctrl = _ACTIVE[0]
+    if ctrl is None or ctrl.aborting:
+        return None
+    me = ctrl.current()
+    if me is None or ctrl.run is None:
+        return None
+    run = ctrl.run
+    try:
+        rid = run.rid_of_callable(callee)
+        label = None
+        if rid is not None:
+            label = INVOKE
+        elif (type(callee) is types.MethodType and callee.__self__ is run.logger
+                and callee.__func__ is RecLogger.exception) or (callee is RecLogger.exception and arg0 is run.logger):
+            # `self._logger.exception(...)`: the interpreter hands over the bound method, or (method-call fast
+            # path) the plain function with the logger as first argument
+            label = LOGERR
+        if label is None:
+            return None
+        line = sys._getframe(1).f_lineno
+    except Exception as ex:  # noqa: BLE001  a harness bug must not be swallowed by the code under test
+        run.errors.append("CALL hook: %r" % (ex,))
+        return None
+    me.pause(("line", code.co_name, line, label))
+    if label is INVOKE:
+        # the thread has been scheduled again: the call is attempted now
+        me.invoking = rid
+        run.attempted.append((rid, me.cur_call, run.now(), me.name))
+    return None
+
+
+def install_call_hook(codes):
+    """Local CALL events (sys.monitoring, Python >= 3.12) on the code objects of the two classes."""
+    mon = sys.monitoring
+    if _TOOL[0] is None:
+        for tool in (4, 3, mon.PROFILER_ID, mon.OPTIMIZER_ID):
+            try:
+                mon.use_tool_id(tool, "futsched")
+            except ValueError:
+                continue
+            _TOOL[0] = tool
+            break
+        else:  # pragma: no cover
+            raise RuntimeError("no free sys.monitoring tool id")
+        mon.register_callback(_TOOL[0], mon.events.CALL, _on_call)
+    for code in codes:
+        if code not in _HOOKED:
+            mon.set_local_events(_TOOL[0], code, mon.events.CALL)
+            _HOOKED.add(code)
 
 
 class Step(object):
@@ -401,6 +480,7 @@ class Controller(object):
         self.sem = _baton()
         self.threads = []
         self.aborting = False
+        self.run = None
 
     def current(self):
         return getattr(self.local, "me", None)
@@ -462,7 +542,10 @@ class RecLogger(object):
         self.run = run
 
     def exception(self, msg, *args):
-        ex = args[0] if args else None
+        ex = None
+        for a in args:      # the exception object, wherever the format string puts it
+            if isinstance(a, BaseException):
+                ex = a
         self.run.on_logged(ex)
 
     def __getattr__(self, name):  # any other logging call is accepted and ignored
@@ -473,43 +556,79 @@ class TaskError(Exception):
     pass
 
 
+class NoArgsTaskError(Exception):
+    """Raised without arguments: `args == ()`, `str(ex) == ""`."""
+
+
+class FalsyTaskError(Exception):
+    def __bool__(self):
+        return False
+
+
+class EmptyTaskError(Exception):
+    def __len__(self):
+        return 0
+
+
 class CallbackError(Exception):
     pass
+
+
+def norm_reg(entry):
+    """(kind, extra spec, form) of one registration; the old two-field form (kind, extra_is_none) is accepted."""
+    entry = tuple(entry)
+    kind = entry[0]
+    x = entry[1] if len(entry) > 1 else "t"
+    if x is True:
+        x = "N"
+    elif x is False:
+        x = "t"
+    form = entry[2] if len(entry) > 2 else "f"
+    if kind not in ("r", "x", "a", "n") or x not in EXTRA_SPECS or form not in FORMS:
+        raise ValueError("bad registration %r" % (entry,))
+    return kind, x, form
 
 
 class Run(object):
     """
     One execution of a program under a schedule.
 
-    program = {"outcome": "ret" | "retnone" | "raise" | None (no executor),
-               "regs": [[(kind, extra_is_none), ...], ...]   one list of set_callback calls per registrar thread,
-                        kind in "r" (returns) "x" (raises) "a" (wrong arity) "n" (method None)
-               "obs":  [[call, ...], ...]    call in "d" (done()) "t" (result(0.01)) "b" (result(None))}
+    program = {"outcome": a key of OUTCOMES_RET / OUTCOMES_RAISE, or None (no executor),
+               "regs": [[(kind, extra, form), ...], ...]   one list of set_callback calls per registrar thread,
+                        kind in "r" (returns) "x" (raises) "a" (wrong arity) "n" (method None),
+                        extra in EXTRA_SPECS, form in FORMS
+               "obs":  [[call, ...], ...]    call in "d" (done()) "t" (result(0.01)) "z" (result(0)) "Z" (result(0.0))
+                                             "b" (result(None))}
     """
 
     def __init__(self, program, table=None, codes=None):
         self.program = program
         self.ctrl = Controller(table, codes)
+        self.ctrl.run = self
         self.steps = []
-        self.calls = []        # real callback bodies that ran: (rid, data, exc, extra, thread, step index)
-        self.logged = []       # logger records: (rid or None, class name, thread, step index)
+        self.calls = []        # real callback bodies that ran: (rid, data, exc, extra, during call, step index, thread)
+        self.attempted = []    # calls of a registered callable attempted by the traced code: (rid, during call, step, thread)
+        self.logged = []       # logger records: (rid or None, class name, during call, step index, thread)
         self.observations = [] # (obs id, call, outcome token, start step, end step, thread)
+        self.blocked = []      # (call, timeout passed, step, thread): untimed wait although a finite timeout was passed
         self.reg_spans = {}    # rid -> [start step, end step, raised]
         self.exec_info = {}    # "task_end": step, "start": step, "end": step, "raised": token
-        self.rid_of_thread = []
         self.cur = None
         self.future = None
-        self.ret_obj = object()
-        self.exc_obj = TaskError("task failed")
+        self.logger = None
+        self.ret_obj, self.exc_obj = self.make_outcome(program.get("outcome"))
         self.callbacks = {}
+        self.cb_errors = {}
         self.extras = {}
+        self.regs = {}         # rid -> (kind, extra spec, form)
         self.deadlock = False
         self.errors = []
         rid = 0
         self.reg_ids = []
         for calls in program.get("regs", []):
             ids = []
-            for _ in calls:
+            for ent in calls:
+                self.regs[rid] = norm_reg(ent)
                 ids.append(rid)
                 rid += 1
             self.reg_ids.append(ids)
@@ -522,10 +641,35 @@ class Run(object):
                 oid += 1
             self.obs_ids.append(ids)
 
-    # tokens -------------------------------------------------------------------------------
+    # objects ------------------------------------------------------------------------------
+    @staticmethod
+    def make_outcome(outcome):
+        ret = exc = None
+        if outcome in OUTCOMES_RET:
+            ret = {"obj": object, "none": lambda: None, "zero": lambda: 0, "str": lambda: "", "list": list,
+                   "false": lambda: False}[OUTCOMES_RET[outcome]]()
+        elif outcome in OUTCOMES_RAISE:
+            how = OUTCOMES_RAISE[outcome]
+            exc = (TaskError("task failed") if how == "plain" else NoArgsTaskError() if how == "noargs"
+                   else FalsyTaskError("falsy") if how == "bool" else EmptyTaskError("empty") if how == "len"
+                   else OSError("task failed with an OSError"))
+        elif outcome is not None:
+            raise ValueError("bad outcome %r" % (outcome,))
+        return ret, exc
+
+    @staticmethod
+    def make_extra(rid, spec):
+        if spec == "t":
+            return ("extra", rid)
+        return {"N": None, "0": 0, "s": "", "u": (), "F": False}[spec]
+
+    # tokens (identity, never equality or truth value) -------------------------------------
     def tok(self, v):
         if v is None:
             return "N"
+        for obj, n in SINGLETONS:
+            if v is obj:
+                return str(n)
         if v is self.ret_obj:
             return str(RET_OBJ)
         if v is self.exc_obj:
@@ -538,41 +682,62 @@ class Run(object):
     def now(self):
         return len(self.steps)
 
+    def rid_of_callable(self, obj):
+        if obj is None:
+            return None
+        for r, cb in self.callbacks.items():
+            if cb is obj:
+                return r
+        return None
+
     # callables ----------------------------------------------------------------------------
-    def make_callback(self, rid, kind):
+    def make_callback(self, rid, kind, form="f"):
         run = self
         if kind == "n":
             return None
+
+        def body(result, exception, extra):
+            run.calls.append((rid, run.tok(result), run.tok(exception), run.tok(extra), run.cur.cur_call, run.now(),
+                              run.cur.name))
+            if kind == "x":
+                err = run.cb_errors[rid] = CallbackError("callback %d fails" % rid)
+                raise err
+
         if kind == "a":
-            def cb(result, exception):  # two parameters: cannot be called with three arguments
+            def fn(result, exception):  # two parameters: cannot be called with three arguments
                 run.errors.append("wrong-arity callback body ran")
         else:
-            def cb(result, exception, extra):
-                run.calls.append((rid, run.tok(result), run.tok(exception), run.tok(extra), run.cur.cur_call, run.now(),
-                                  run.cur.name))
-                if kind == "x":
-                    raise CallbackError("callback %d fails" % rid)
-        cb.__name__ = cb.__qualname__ = "cb_%d_" % rid
-        cb.rid = rid
-        return cb
+            def fn(result, exception, extra):
+                return body(result, exception, extra)
+        fn.__name__ = fn.__qualname__ = "cb_%d_" % rid
+        if form == "f":
+            return fn
+        if form == "p":
+            return functools.partial(fn)       # no __name__; the arity error is raised by the inner call
+        ns = {}
+        if kind == "a":
+            ns["__call__"] = lambda self, result, exception: fn(result, exception)
+        else:
+            ns["__call__"] = lambda self, result, exception, extra: fn(result, exception, extra)
+        if form in ("b", "B"):
+            ns["__bool__"] = lambda self: False
+        if form in ("l", "L"):
+            ns["__len__"] = lambda self: 0
+        cls = type("CallableObject_%s" % form, (object,), ns)
+        inst = cls()
+        if form in ("B", "L"):
+            inst.__name__ = "cb_%d_" % rid
+        return inst
 
     def on_logged(self, ex):
-        rid = None
-        text = str(ex)
-        if isinstance(ex, TypeError):
-            i = text.find("cb_")
-            if i >= 0:
-                rid = int(text[i + 3:text.index("_", i + 3)])
-        elif isinstance(ex, CallbackError):
-            rid = int(text.split()[1])
-        self.logged.append((rid, type(ex).__name__, self.cur.cur_call, self.now(), self.cur.name))
+        me = self.cur
+        self.logged.append((me.invoking, type(ex).__name__, me.cur_call, self.now(), me.name))
 
     def task(self):
-        o = self.program["outcome"]
         self.exec_info["task_end"] = self.now()
-        if o == "raise":
+        if self.exc_obj is not None:
             raise self.exc_obj
-        return self.ret_obj if o == "ret" else None
+        return self.ret_obj
 
     # thread bodies ------------------------------------------------------------------------
     def exec_body(self, me):
@@ -589,7 +754,8 @@ class Run(object):
 
     def reg_body(self, index):
         def body(me):
-            for rid, (kind, xnone) in zip(self.reg_ids[index], self.program["regs"][index]):
+            for rid in self.reg_ids[index]:
+                kind = self.regs[rid][0]
                 cb = self.callbacks[rid]
                 extra = self.extras.get(rid)
                 span = self.reg_spans[rid] = [self.now(), None, None]
@@ -609,7 +775,7 @@ class Run(object):
                 start = self.now()
                 me.cur_call = "O%d" % oid
                 me.pending_enter.append(("O", oid, call))
-                me.wait_timeout = 0.01 if call == "t" else None
+                me.wait_timeout = TIMED_CALLS.get(call)     # None for "b" (and unused by "d")
                 try:
                     if call == "d":
                         out = "T" if self.future.done() else "F"
@@ -619,6 +785,7 @@ class Run(object):
                     out = "e" + self.tok(ex) if ex is self.exc_obj else "OSError"
                 except Exception as ex:  # noqa: BLE001
                     out = "e" + self.tok(ex) if ex is self.exc_obj else type(ex).__name__
+                me.wait_timeout = None
                 self.observations.append((oid, call, out, start, self.now(), me.name))
                 me.ended.append(("O", oid, out))
         return body
@@ -634,7 +801,8 @@ class Run(object):
         flag = evd.get("_EventData__event")
         comp = d.get("_FutureResult__completed", "?")
         return {
-            "cb": "N" if cb is None else str(getattr(cb, "rid", "?")),
+            "cb": "?" if isinstance(cb, str) else "N" if cb is None else str(
+                "?" if self.rid_of_callable(cb) is None else self.rid_of_callable(cb)),
             "xt": self.tok(d.get("_FutureResult__extra")),
             "c": "?" if comp == "?" else ("1" if comp else "0"),
             "l": "?" if lock is None else ("N" if lock.owner is None else getattr(lock.owner, "cur_call", "?")),
@@ -654,15 +822,15 @@ class Run(object):
         ctrl = self.ctrl
         saved = tp.threading
         tp.threading = ShimThreading(ctrl)
+        self.logger = RecLogger(self)
         try:
-            self.future = tp.FutureResult(RecLogger(self))
+            self.future = tp.FutureResult(self.logger)
         finally:
             tp.threading = saved
-        for ids, calls in zip(self.reg_ids, self.program.get("regs", [])):
-            for rid, (kind, xnone) in zip(ids, calls):
-                self.callbacks[rid] = self.make_callback(rid, kind)
-                if not xnone:
-                    self.extras[rid] = ("extra", rid)
+        for rid, (kind, xspec, form) in self.regs.items():
+            self.callbacks[rid] = self.make_callback(rid, kind, form)
+            self.extras[rid] = self.make_extra(rid, xspec)
+        install_call_hook(ctrl.codes)
         if self.program.get("outcome") is not None:
             ctrl.add("E", "exec", self.exec_body)
         for i in range(len(self.program.get("regs", []))):
@@ -686,6 +854,7 @@ class Run(object):
         self.choices = []
         prev = None
         tp.threading = ShimThreading(ctrl)
+        _ACTIVE[0] = ctrl
         try:
             # thread start-up: each runs its local prefix up to the first scheduling point
             self.cur = None
@@ -755,7 +924,61 @@ class Run(object):
         finally:
             tp.threading = saved
             ctrl.abort()
+            _ACTIVE[0] = None
         return self
+
+
+# --------------------------------------------------------------------------------------------
+# Speed: the baton is handed from OS thread to OS thread twice per step; when the threads sit on different cores
+# every hand-over pays a cross-core wake-up (3-4x slower, worse on a loaded machine).  Exploration therefore runs
+# on ONE core, the idlest one at that moment; the previous affinity is restored afterwards.  Purely a matter of
+# speed: which schedules are explored does not depend on it.
+
+
+def _cpu_busy_ticks():
+    out = {}
+    try:
+        with open("/proc/stat") as fh:
+            for ln in fh:
+                if ln.startswith("cpu") and ln[3:4].isdigit():
+                    f = ln.split()
+                    vals = [int(x) for x in f[1:]]
+                    out[int(f[0][3:])] = sum(vals) - vals[3] - (vals[4] if len(vals) > 4 else 0)
+    except (OSError, ValueError):
+        pass
+    return out
+
+
+class single_cpu(object):
+    """Context manager: pins the calling thread (and the threads it starts) to the idlest allowed core."""
+
+    def __enter__(self):
+        self.old = None
+        if os.environ.get("VERIF_NO_PIN") or not hasattr(os, "sched_setaffinity"):
+            return self
+        try:
+            allowed = os.sched_getaffinity(0)
+            if len(allowed) > 1:
+                import time
+                a = _cpu_busy_ticks()
+                time.sleep(0.03)
+                b = _cpu_busy_ticks()
+                load = {c: b.get(c, 0) - a.get(c, 0) for c in allowed}
+                here = os.sched_getcpu() if hasattr(os, "sched_getcpu") else None
+                best = min(sorted(allowed), key=lambda c: (load.get(c, 0) - (1 if c == here else 0), c))
+                os.sched_setaffinity(0, {best})
+                self.old = allowed
+        except OSError:
+            self.old = None
+        return self
+
+    def __exit__(self, *exc):
+        if self.old is not None:
+            try:
+                os.sched_setaffinity(0, self.old)
+            except OSError:
+                pass
+        return False
 
 
 def default_chooser(prefix):
